@@ -569,7 +569,8 @@ def check_history(hist, maxq, drain, acc):
 def plan(tier, seed):
     return [dict(check='request', part=i, of=NSHARDS) for i in range(NSHARDS)] + \
            [dict(check='history', part=i, of=16) for i in range(16)] + \
-           [dict(check='queue-history', part=i, of=8) for i in range(8)]
+           [dict(check='queue-history', part=i, of=8) for i in range(8)] + \
+           [dict(check='server-binding')]
 
 
 def run_shard(shard, tier):
@@ -581,6 +582,12 @@ def run_shard(shard, tier):
         for i, s in enumerate(specs(tier)):
             if i % shard['of'] == shard['part']:
                 check_request(s, acc)
+    elif shard['check'] == 'server-binding':
+        # "no request prevents later valid indications from being accepted": the harness feeds one
+        # request at a time to the handler, so that a slow / stalled request does not block the others
+        # is a property of the real threaded server, observed here on a loopback socket
+        from checks.c16_listener_sched import binding_shard
+        binding_shard(('busy-handler-blocks-other-connections', 'request-not-handled-while-loop-runs'), acc, ID)
     elif shard['check'] == 'queue-history':
         for i, (h, maxq) in enumerate(queue_histories(tier)):
             if i % shard['of'] == shard['part']:
@@ -599,6 +606,9 @@ def replay(case, tier):
     acc = Acc()
     if case['check'] == 'request':
         check_request(case['spec'], acc)
+    elif case['check'] == 'server-binding':
+        from checks.c16_listener_sched import binding_shard
+        binding_shard(('busy-handler-blocks-other-connections', 'request-not-handled-while-loop-runs'), acc, ID)
     elif case['check'] == 'queue-history':
         check_queue_history(case['history'], case['maxq'], acc)
     else:
@@ -608,5 +618,8 @@ def replay(case, tier):
 
 
 def snippet(case):
+    if case.get('check') == 'server-binding':
+        return ('import sys; sys.path.insert(0, "/verif")\nimport mc\nfrom mc.listener_mc import server_binding_problems\n'
+                'def test_replay():\n    assert server_binding_problems()[0] == []\n')
     return ('import sys; sys.path.insert(0, "/verif")\nimport mc\nfrom checks import c17_listener_http as c\n'
             'def test_replay():\n    acc = c.replay(%r, "quick")\n    assert not acc.violations\n' % (case,))
